@@ -45,7 +45,7 @@ CHECKS = {
  "C09": ("With require-order, for 6 kinds of satisfied option groups before the stop point, 3 kinds of stop token (positional, unknown option with symbolic name, `-`) and two UNCONSTRAINED tail tokens: "
          "remaining is exactly [stop, t1, t2] and all values/Called equal those of a second run of the prefix alone without require-order; a command-name token before the stop still descends.",
          "two tail tokens (three in thorough), one option group before the stop; relational harness VerifC09_RawBefore: for one (thorough: two) unconstrained tokens in front of a fixed positional and a tail, remaining is a verbatim suffix and the state equals the prefix parsed without require-order; "),
- "C10": ("17 command-line shapes over a 3-level tree (inherited root option, command with child, command without function, UnsetOptions wrapper with own option and child, command-only require-order, optional help command) "
+ "C10": ("18 command-line shapes over a 3-level tree (inherited root option, command with child, command without function, UnsetOptions wrapper with own option and child, command-only require-order, optional help command) "
          "with symbolic payloads: exactly one instrumented CommandFn runs (none + error where the command has no function), with the caller's context, the remaining list Parse returned and the parsed own/inherited option values; "
          "a command name as option value, after `--` or after the require-order stop does not select.",
          "fixed tree of depth 3, shapes enumerated in harness c10.go; "),
@@ -58,7 +58,7 @@ CHECKS = {
          "single option; environment texts without NUL bytes; Called on an invalid numeric environment text is not asserted (statement silent); "),
  "C13": ("The real Graph.Run is executed by the engine's interpreter with goroutines, channels, select, mutexes and time.Sleep modelled; for every DAG shape of 3 tasks, every outcome (nil / error / ErrorSkipParents) of every task, "
          "buffered output on/off - and for 2 tasks with up to 2 retries in parallel, bounded and serial mode - EVERY order in which running tasks can be delivered to the scheduler loop is explored: "
-         "a task is entered only after each dependency exited nil; attempts are sequential, at most retries+1, none after a success.",
+         "a task is entered only after each dependency exited nil; attempts are sequential, at most retries+1, none after a success (also when the output writer refuses every Write); solver-decided lemmas over SYMBOLIC retry and failure counts, including negative retry counts.",
          "3 tasks (2 with retries); all choices are finite-domain and enumerated by the engine, no SMT query is needed; scheduling policy 'maximal intervals' (DESIGN.md 2.8): tasks count as entered as early and returned as late as any real schedule allows; memory visibility rests on Go's happens-before edges (assumed); "),
  "C14": ("Same exploration: after a final-attempt error or an ErrorSkipParents no transitive dependent is ever entered; Run returns nil iff no task failed, otherwise an *Errors value holding the task's error and exactly one ErrorTaskSkipped entry per never-started task that is not above a skip-parents task; "
          "cancellation before Run or by a running task: started tasks finish, nothing that was not ready at the cancel point starts, an unfinished graph makes Run return an error and every never-started task is accounted for by one ErrorTaskSkipped entry; the skip report over all graphs of 4 tasks with two skipping (thorough: failing) tasks.",
@@ -69,7 +69,7 @@ CHECKS = {
          "4 tasks, limits 1-3; two graphs sharing one task; interleavings between two scheduler loops are settled deterministically after each delivery, not enumerated; "),
  "C16": ("All sequences of 3 (thorough 4) construction calls, each a symbolic choice of AddTask / TaskDependsOn / TaskRetries over 3 tasks (re-adds, duplicate and self edges), followed by Run under every completion order: "
          "Run returns (the engine reports a hang when the scheduler loop spins with nothing in flight, replayed natively under a time limit), a cycle is rejected before any task starts with ErrorGraphHasCycle, acyclic graphs run every task once; "
-         "DepthFirstSort on every shape: each vertex once, dependencies first; work conservation checked at every idle point of the scheduler loop over all shapes/outcomes/modes; Run also returns when the output writer refuses every Write.",
+         "DepthFirstSort on every shape: each vertex once, dependencies first; work conservation checked at every idle point of the scheduler loop over all shapes/outcomes/modes; Run also returns when the output writer refuses every Write; a task without a function is rejected instead of being called.",
          "3 tasks, histories of 3/4 calls; "),
  "C17": ("Over a fixed tree (aliases, valid and suggested values, two command levels with static suggestions, wrapper, help command) with a SYMBOLIC last word (any bytes without white space), 7 shapes of earlier words (incl. a wrapper with an option of its own and its sub command), bash and zsh: "
          "the offered names are exactly the declared option names/aliases (resp. commands and suggestions) of the level reached that start with the typed text, sorted, each accepted by a normal Parse at that position; "
